@@ -380,7 +380,10 @@ class Interp:
             owner = v.info
             self.state.class_over[(owner.qualname, name)] = value
             return
-        if isinstance(v, (FuncVal, Closure, Bound, Opaque)):
+        if isinstance(v, Closure):
+            v.attrs[name] = value
+            return
+        if isinstance(v, (FuncVal, Bound, Opaque)):
             raise Unsupported('setting attributes on functions')
         if v is None:
             self.ctx.raise_exc('AttributeError', "'NoneType' object has no attribute '%s'" % name)
